@@ -4,7 +4,7 @@ snapshot of every input tree and listing of S before/after, (b) audit-hook log o
 write-class event (catches transient writes), (c) strace cross-check of console forms
 (thorough); M4 fault injection at every individual open-for-write, mkdir and write call of the
 writers (one-shot, sticky), plus missing-binary and unknown-field failure forms."""
-import os, sys, random, shutil, json, subprocess
+import re, os, sys, random, shutil, json, subprocess
 import numpy as np
 from .. import common, gen, chkgen, pools, fsaudit, faults, refmodel, refparse, scenarios
 
@@ -68,6 +68,11 @@ def cases(tier, seed):
         if tool != "chk2plt":
             for damage in ("cut_at_box:1", "cut_at_box:2", "empty"):
                 cs.append({"kind": "truncated", "tool": tool, "seed": seed * 100 + 17, "damage": damage})
+    # a level header cut short inside its per-box tables (whole rows of minima / maxima missing): tools that copy
+    # the tables must notice; tools that never read them write what they write from the intact input
+    for tool in ["colander", "combine", "combine_byfile", "chef", "mandoline_plotfile"]:
+        for damage in ("cellh_cut:max", "cellh_cut:min"):
+            cs.append({"kind": "truncated", "tool": tool, "seed": seed * 100 + 17, "damage": damage})
     if tier == "thorough":
         for tool in ["colander", "chef", "marinate", "chk2plt", "mandoline_array", "combine", "whip"]:
             cs.append({"kind": "strace", "tool": tool, "seed": seed * 100 + 13})
@@ -580,7 +585,25 @@ def run_truncated(case, work, rec):
                 walk, _ = refparse.file_walk(os.path.join(root, lvd, f)) if prefix == "Cell_D" else ([], 0)
                 if best is None or len(walk) > len(best[1]):
                     best = (os.path.join(root, lvd, f), walk)
-    if damage == "tail24" or prefix != "Cell_D":
+    if damage.startswith("cellh_cut"):
+        lvd = sorted(x for x in os.listdir(root) if x.startswith("Level_"))[-1]
+        vp = os.path.join(root, lvd, "Cell_H")
+        with open(vp) as f:
+            L = f.read().split("\n")
+        # the two tables start at the lines "<nboxes>,<nfields>"; rows end with a comma
+        starts = [i for i, l in enumerate(L) if re.match(r"^\d+,\d+$", l)]
+        if len(starts) != 2:
+            rec.skip("level header without min/max tables"); return
+        nrows = int(L[starts[0]].split(",")[0])
+        if damage.endswith("max"):
+            keep = L[:starts[1] + 1 + max(0, nrows - 1)]          # the last row of maxima is gone (and what follows)
+        else:
+            keep = L[:starts[0] + 1 + max(0, nrows - 1)]          # cut inside the minima
+        with open(vp, "w") as f:
+            f.write("\n".join(keep) + "\n")
+        victim = os.path.join(lvd, "Cell_H")
+        what = f"{victim} cut short inside its table of per-box {'maxima' if damage.endswith('max') else 'minima'} ({nrows} boxes)"
+    elif damage == "tail24" or prefix != "Cell_D":
         d = os.path.join(root, "Level_0")
         victim = sorted(f for f in os.listdir(d) if f.startswith(prefix))[-1]
         vp = os.path.join(d, victim)
